@@ -196,9 +196,9 @@ func (a *Activation) callContract(ins *ssa.Call, g *ssa.Function, spec *FuncSpec
 		post.vars[name] = v
 		ghostRes["res_"+name] = v
 	}
-	for _, en := range spec.Ensures {
+	for i, en := range spec.Ensures {
 		c.Comment("ensures of " + fullKey(g) + ": " + en.Text)
-		c.Assume(implies(*rc, post.evalBool(en.E)))
+		c.AssumeTagged(fmt.Sprintf("%s:%s", site, clauseLabel(en.Label, i)), implies(*rc, post.evalBool(en.E)))
 	}
 	if a.depth == 0 {
 		a.ghostAt("after "+site, st, *rc, nil, func(n string) (Val, bool) {
@@ -458,10 +458,13 @@ func (a *Activation) appendSlice(ins ssa.Value, s, t Val, st *State, rc *string)
 	z := c.zero(et)
 	j := c.boundVar("j")
 	row := c.Fresh("row", arrSort("Int", srt))
+	srcIdx := func(rel string) string {
+		return x.sidx(t, rel)
+	}
 	inNew := and(app("<=", app("+", off, s.Len), j), app("<", j, app("+", off, newLen)))
 	inOld := and(app("<=", off, j), app("<", j, app("+", off, s.Len)))
 	c.Assume(fmt.Sprintf("(forall ((%s Int)) (! (= (select %s %s) %s) :pattern ((select %s %s))))", j, row, j,
-		ite(inNew, sel(sel(old, t.Arr), app("+", t.Off, app("-", j, app("+", off, s.Len)))),
+		ite(inNew, sel(sel(old, t.Arr), srcIdx(app("-", j, app("+", off, s.Len)))),
 			ite(grow, ite(inOld, sel(sel(old, s.Arr), app("+", s.Off, app("-", j, off))), z.S), sel(sel(old, s.Arr), j))), row, j))
 	st.elems[srt] = c.Define("E_"+srt, arrSort("Int", arrSort("Int", srt)), store(old, arr, row))
 	st.alloc = c.Define("alloc", "Int", ite(grow, fresh, st.alloc))
